@@ -54,9 +54,28 @@ func (w *World) monFlow(n *node, kind string, in *pb.Message, pre, post *raft.Ve
 			delete(n.streams, f)
 		}
 	}
+	// wire-level view of "a snapshot is pending for follower f": a MsgSnap was
+	// created for f and since then neither an acknowledgement from f was
+	// delivered nor the application reported the transfer's outcome
+	if pre.Role != raft.StateLeader || pre.Term != post.Term {
+		n.pendingSnapTo = map[uint64]bool{}
+	}
+	if in != nil && in.GetType() == pb.MsgAppResp && in.GetTerm() == post.Term {
+		delete(n.pendingSnapTo, in.GetFrom())
+	}
+	if kind == "reportsnap" {
+		delete(n.pendingSnapTo, w.mon.curReportTo)
+	}
+	for _, c := range created {
+		if c.GetType() == pb.MsgApp && n.pendingSnapTo[c.GetTo()] {
+			w.violate("C16", []string{"C09"}, "leader %d created a MsgApp (prev index %d, %d entries) for %d although the snapshot it sent to it is still pending: no acknowledgement from it and no ReportSnapshot since (%s)", n.id, c.GetIndex(), len(c.GetEntries()), c.GetTo(), kind)
+			delete(n.pendingSnapTo, c.GetTo())
+		}
+	}
 	for _, c := range created {
 		if c.GetType() == pb.MsgSnap {
 			w.Stats["msgsnap-created"]++
+			n.pendingSnapTo[c.GetTo()] = true
 			continue
 		}
 		if c.GetType() != pb.MsgApp {
